@@ -7,7 +7,7 @@
 //   ret is what the client decoded from the wire.
 use crate::actor::{BuiltStore, StoreCfg, LATTICE};
 use crate::cmd::{counters, hostile_keys};
-use crate::conn::{free_port, install_trace_capture, wait_port};
+use crate::conn::{install_trace_capture, wait_port};
 use crate::metrics::{lex_sample, table_text};
 use crate::resp::{parse_with, Dec};
 use crate::util::*;
@@ -84,8 +84,17 @@ pub struct Seen {
 // clients
 // ----------------------------------------------------------------------------------------
 pub async fn http_raw(port: u16, request: &[u8]) -> Result<(u16, String), String> {
+    let s = match tokio::time::timeout(Duration::from_secs(5), TcpStream::connect(("127.0.0.1", port))).await {
+        Ok(Ok(s)) => s,
+        Ok(Err(e)) => return Err(e.to_string()),
+        Err(_) => return Err("timeout".into()),
+    };
+    http_exchange(s, request, Duration::from_secs(5)).await
+}
+
+/// one request on an already open connection (`Connection: close` expected in it): write, read to the end
+pub async fn http_exchange(mut s: TcpStream, request: &[u8], wait: Duration) -> Result<(u16, String), String> {
     let fut = async {
-        let mut s = TcpStream::connect(("127.0.0.1", port)).await.map_err(|e| e.to_string())?;
         s.write_all(request).await.map_err(|e| e.to_string())?;
         let mut buf = vec![];
         s.read_to_end(&mut buf).await.map_err(|e| e.to_string())?;
@@ -110,9 +119,32 @@ pub async fn http_raw(port: u16, request: &[u8]) -> Result<(u16, String), String
         };
         Ok((status, body))
     };
-    match tokio::time::timeout(Duration::from_secs(5), fut).await {
+    match tokio::time::timeout(wait, fut).await {
         Ok(r) => r,
         Err(_) => Err("timeout".into()),
+    }
+}
+
+/// the decoded answer of a POST /throttle exchange
+pub fn http_answer(r: Result<(u16, String), String>) -> (WireAns, u16) {
+    match r {
+        Err(e) => (WireAns::Broken(e), 0),
+        Ok((status, text)) => {
+            if status == 200 {
+                match serde_json::from_str::<serde_json::Value>(&text) {
+                    Ok(v) => {
+                        let g = |n: &str| v.get(n).and_then(|x| x.as_i64());
+                        match (v.get("allowed").and_then(|x| x.as_bool()), g("limit"), g("remaining"), g("reset_after"), g("retry_after")) {
+                            (Some(a), Some(l), Some(r), Some(rs), Some(rt)) => (WireAns::Ok(a, l, r, rs, rt), status),
+                            _ => (WireAns::Broken(format!("unexpected JSON {text}")), status),
+                        }
+                    }
+                    Err(e) => (WireAns::Broken(format!("bad JSON {e}")), status),
+                }
+            } else {
+                (WireAns::Err(format!("{status} {text}")), status)
+            }
+        }
     }
 }
 
@@ -147,25 +179,7 @@ pub fn json_body(rng: &mut Rng, l: &Logical) -> String {
 }
 
 pub async fn http_throttle(port: u16, body: &str) -> (WireAns, u16) {
-    match http_raw(port, &http_post_bytes(body)).await {
-        Err(e) => (WireAns::Broken(e), 0),
-        Ok((status, text)) => {
-            if status == 200 {
-                match serde_json::from_str::<serde_json::Value>(&text) {
-                    Ok(v) => {
-                        let g = |n: &str| v.get(n).and_then(|x| x.as_i64());
-                        match (v.get("allowed").and_then(|x| x.as_bool()), g("limit"), g("remaining"), g("reset_after"), g("retry_after")) {
-                            (Some(a), Some(l), Some(r), Some(rs), Some(rt)) => (WireAns::Ok(a, l, r, rs, rt), status),
-                            _ => (WireAns::Broken(format!("unexpected JSON {text}")), status),
-                        }
-                    }
-                    Err(e) => (WireAns::Broken(format!("bad JSON {e}")), status),
-                }
-            } else {
-                (WireAns::Err(format!("{status} {text}")), status)
-            }
-        }
-    }
+    http_answer(http_raw(port, &http_post_bytes(body)).await)
 }
 
 pub fn resp_command(rng: &mut Rng, l: &Logical) -> Vec<u8> {
@@ -250,7 +264,21 @@ pub fn resp_answer(v: Result<RespValue, String>) -> WireAns {
     }
 }
 
+/// gRPC calls alternate between the crate's GENERATED client and the hand-written client that carries the DOCUMENTED
+/// field numbers (`grpc_call_doc`), so that every oracle on gRPC answers sees both
+static GRPC_TURN: std::sync::atomic::AtomicU64 = std::sync::atomic::AtomicU64::new(0);
+pub static GRPC_DOC_CALLS: std::sync::atomic::AtomicU64 = std::sync::atomic::AtomicU64::new(0);
+
 pub async fn grpc_call(port: u16, l: &Logical) -> WireAns {
+    if GRPC_TURN.fetch_add(1, std::sync::atomic::Ordering::Relaxed) % 2 == 1 {
+        grpc_call_doc(port, l).await
+    } else {
+        grpc_call_gen(port, l).await
+    }
+}
+
+/// the client generated from THIS build's .proto (re-exported by the server crate); fields read by NAME
+pub async fn grpc_call_gen(port: u16, l: &Logical) -> WireAns {
     let fut = async {
         let mut c = RateLimiterClient::connect(format!("http://127.0.0.1:{port}")).await.map_err(|e| format!("connect: {e}"))?;
         c.throttle(tonic::Request::new(GrpcRequest {
@@ -275,7 +303,77 @@ pub async fn grpc_call(port: u16, l: &Logical) -> WireAns {
     }
 }
 
-fn fits_i32(l: &Logical) -> bool {
+/// `ThrottleRequest` with the field numbers of the DOCUMENTED schema (module docs of transport/grpc.rs, the published
+/// .proto): what any client generated independently of this build puts on the wire
+#[derive(Clone, PartialEq, prost::Message)]
+pub struct DocThrottleRequest {
+    #[prost(string, tag = "1")]
+    pub key: String,
+    #[prost(int32, tag = "2")]
+    pub max_burst: i32,
+    #[prost(int32, tag = "3")]
+    pub count_per_period: i32,
+    #[prost(int32, tag = "4")]
+    pub period: i32,
+    #[prost(int32, tag = "5")]
+    pub quantity: i32,
+}
+
+/// `ThrottleResponse` as documented: allowed = 1, limit = 2, remaining = 3, retry_after = 4, reset_after = 5
+#[derive(Clone, PartialEq, prost::Message)]
+pub struct DocThrottleResponse {
+    #[prost(bool, tag = "1")]
+    pub allowed: bool,
+    #[prost(int32, tag = "2")]
+    pub limit: i32,
+    #[prost(int32, tag = "3")]
+    pub remaining: i32,
+    #[prost(int32, tag = "4")]
+    pub retry_after: i32,
+    #[prost(int32, tag = "5")]
+    pub reset_after: i32,
+}
+
+pub type DocGrpc = tonic::client::Grpc<tonic::transport::Channel>;
+
+pub async fn doc_grpc_connect(port: u16) -> Result<DocGrpc, String> {
+    let ch = tonic::transport::Channel::from_shared(format!("http://127.0.0.1:{port}")).map_err(|e| format!("connect: {e}"))?.connect().await.map_err(|e| format!("connect: {e}"))?;
+    Ok(tonic::client::Grpc::new(ch))
+}
+
+/// one Throttle RPC on an open channel, messages encoded / decoded with the documented field numbers
+pub async fn doc_grpc_send(grpc: &mut DocGrpc, l: &Logical) -> WireAns {
+    GRPC_DOC_CALLS.fetch_add(1, std::sync::atomic::Ordering::Relaxed);
+    if let Err(e) = grpc.ready().await {
+        return WireAns::Broken(format!("connect: {e}"));
+    }
+    let path = tonic::codegen::http::uri::PathAndQuery::from_static("/throttlecrab.RateLimiter/Throttle");
+    let codec = tonic_prost::ProstCodec::<DocThrottleRequest, DocThrottleResponse>::default();
+    let req = DocThrottleRequest { key: l.key.clone(), max_burst: l.b as i32, count_per_period: l.c as i32, period: l.p as i32, quantity: l.q.unwrap_or(1) as i32 };
+    match grpc.unary(tonic::Request::new(req), path, codec).await {
+        Err(s) => WireAns::Err(format!("status: {s}")),
+        Ok(r) => {
+            let r = r.into_inner();
+            WireAns::Ok(r.allowed, r.limit as i64, r.remaining as i64, r.reset_after as i64, r.retry_after as i64)
+        }
+    }
+}
+
+/// a gRPC Throttle call by a client that knows the DOCUMENTED schema only (new channel per call)
+pub async fn grpc_call_doc(port: u16, l: &Logical) -> WireAns {
+    let fut = async {
+        match doc_grpc_connect(port).await {
+            Err(e) => WireAns::Broken(e),
+            Ok(mut g) => doc_grpc_send(&mut g, l).await,
+        }
+    };
+    match tokio::time::timeout(Duration::from_secs(5), fut).await {
+        Err(_) => WireAns::Broken("timeout".into()),
+        Ok(a) => a,
+    }
+}
+
+pub fn fits_i32(l: &Logical) -> bool {
     let f = |x: i64| x >= i32::MIN as i64 && x <= i32::MAX as i64;
     f(l.b) && f(l.c) && f(l.p) && l.q.map(f).unwrap_or(false)
 }
@@ -333,6 +431,183 @@ pub async fn send_proto(proto: Proto, rng: &mut Rng, ports: &Ports, l: &Logical,
             (resp_answer(r), format!("RESP {}", hx(&cmd)))
         }
     }
+}
+
+// ----------------------------------------------------------------------------------------
+// shared by `wire` and `binary`: deeply nested frames, replies before a rejected frame, the documented gRPC schema
+// ----------------------------------------------------------------------------------------
+/// nesting depths of the hostile RESP frames: the decoder accepts 128 levels, no more
+pub const NEST_DEPTHS: [usize; 6] = [64, 100, 127, 128, 129, 200];
+pub const NEST_LIMIT: usize = 128;
+
+/// `depth` array headers `*1` around the integer 1 (4 bytes per level: depth 200 is 804 bytes)
+pub fn nested_frame(depth: usize) -> Vec<u8> {
+    let mut v = b"*1\r\n".repeat(depth);
+    v.extend_from_slice(b":1\r\n");
+    v
+}
+
+/// What a nested frame of `depth` levels got on a connection of its own, judged: within the limit it is a value like
+/// any other - not a command, so the reply is the error for a command whose name is not a bulk string, and the
+/// connection goes on serving (PING -> PONG); beyond the limit the decoder rejects it and the server closes the
+/// connection without a reply.  `reply` / `ping`: what `RespConn::call` returned for the frame / for the PING after it.
+pub fn judge_nested(depth: usize, reply: &Result<RespValue, String>, ping: &Option<Result<RespValue, String>>) -> Option<String> {
+    let shown = |r: &Result<RespValue, String>| match r {
+        Ok(v) => crate::val::show(v),
+        Err(e) => format!("no reply ({e})"),
+    };
+    if depth <= NEST_LIMIT {
+        match reply {
+            Ok(RespValue::Error(e)) if e == "ERR invalid command format" => match ping {
+                Some(Ok(RespValue::SimpleString(p))) if p == "PONG" => None,
+                Some(other) => Some(format!("a frame nested {depth} deep (limit {NEST_LIMIT}) was answered, but the PING after it on the same connection got {}", shown(other))),
+                None => None,
+            },
+            other => Some(format!("a frame nested {depth} deep (within the limit of {NEST_LIMIT}: a value like any other) got {} instead of the reply `-ERR invalid command format`", shown(other))),
+        }
+    } else {
+        match reply {
+            Err(e) if e != "timeout" => None,
+            other => Some(format!("a frame nested {depth} deep (limit {NEST_LIMIT}) must be rejected - connection closed, no reply - but got {}", shown(other))),
+        }
+    }
+}
+
+/// frames the RESP decoder REJECTS (every one is checked against the in-process decoder before use)
+pub fn rejected_frames() -> Vec<(&'static str, Vec<u8>)> {
+    vec![
+        ("a frame with an invalid type byte", b"!oops\r\n".to_vec()),
+        ("an inline command", b"PING\r\n".to_vec()),
+        ("a bulk string that is not UTF-8", b"*2\r\n$4\r\nPING\r\n$3\r\n\xff\xfe\xfd\r\n".to_vec()),
+        ("a bulk string of length -2", b"*1\r\n$-2\r\n".to_vec()),
+    ]
+}
+
+/// ONE write of `bytes` on a new RESP connection, then read until the server closes (or nothing arrives for `idle`):
+/// (complete replies received in order, server closed the connection, bytes that are not a complete reply)
+pub async fn resp_write_read_to_end(port: u16, bytes: &[u8], idle: Duration) -> Result<(Vec<RespValue>, bool, usize), String> {
+    let mut sock = TcpStream::connect(("127.0.0.1", port)).await.map_err(|e| e.to_string())?;
+    sock.set_nodelay(true).ok();
+    sock.write_all(bytes).await.map_err(|e| e.to_string())?;
+    let mut buf: Vec<u8> = vec![];
+    let mut tmp = vec![0u8; 4096];
+    let mut closed = false;
+    loop {
+        match tokio::time::timeout(idle, sock.read(&mut tmp)).await {
+            Ok(Ok(0)) | Ok(Err(_)) => {
+                closed = true;
+                break;
+            }
+            Ok(Ok(n)) => buf.extend_from_slice(&tmp[..n]),
+            Err(_) => break,
+        }
+    }
+    let mut replies = vec![];
+    let mut p = RespParser::new();
+    while let Dec::Ok(v, n) = parse_with(&mut p, &buf) {
+        buf.drain(..n);
+        replies.push(v);
+    }
+    Ok((replies, closed, buf.len()))
+}
+
+/// who sends a request of the documented-schema round
+#[derive(Clone, Copy, Debug, PartialEq)]
+pub enum Client {
+    Http,
+    Resp,
+    /// the client generated from this build's .proto
+    GrpcGenerated,
+    /// the hand-written client with the documented field numbers
+    GrpcDocumented,
+}
+
+impl Client {
+    pub fn proto(self) -> Proto {
+        match self {
+            Client::Http => Proto::Http,
+            Client::Resp => Proto::Resp,
+            _ => Proto::Grpc,
+        }
+    }
+}
+
+/// One SHARED bucket (fresh `key`, burst `b` >= 4, 1 per 3600 s: no token comes back while this runs) addressed in turn
+/// by the four kinds of client, starting at a seed-chosen one: `b` requests that are allowed - every kind of client
+/// gets at least one - then four that are denied, one per kind.  Returns (client, answer, HTTP status) in order and,
+/// per request, when it was started and when its answer was there.
+pub async fn documented_schema_round(ports: &Ports, rng: &mut Rng, key: &str, b: i64) -> (Vec<(Client, WireAns, u16)>, Vec<(std::time::Instant, std::time::Instant)>) {
+    let kinds = [Client::GrpcDocumented, Client::Http, Client::GrpcGenerated, Client::Resp];
+    let start = rng.below(4) as usize;
+    let mut v = vec![];
+    let mut times = vec![];
+    let mut conn: Option<RespConn> = None;
+    for i in 0..(b as usize + 4) {
+        let who = kinds[(start + i) % 4];
+        let l = Logical { key: key.to_string(), b, c: 1, p: 3600, q: Some(1) };
+        let t_sent = std::time::Instant::now();
+        let (a, st) = match who {
+            Client::Http => http_throttle(ports.http, &json_body(rng, &l)).await,
+            Client::GrpcGenerated => (grpc_call_gen(ports.grpc, &l).await, 0),
+            Client::GrpcDocumented => (grpc_call_doc(ports.grpc, &l).await, 0),
+            Client::Resp => {
+                if conn.is_none() {
+                    conn = RespConn::open(ports.resp).await.ok();
+                }
+                let r = match conn.as_mut() {
+                    Some(c) => c.call(&resp_command(rng, &l)).await,
+                    None => Err("connect failed".into()),
+                };
+                (resp_answer(r), 0)
+            }
+        };
+        v.push((who, a, st));
+        times.push((t_sent, std::time::Instant::now()));
+    }
+    (v, times)
+}
+
+/// the oracles of the documented-schema round that need nothing but the answers: (property, what)
+pub fn judge_documented_schema(b: i64, answers: &[(Client, WireAns, u16)], times: &[(std::time::Instant, std::time::Instant)]) -> Vec<(&'static str, String)> {
+    let mut bad = vec![];
+    let mut denied: Vec<(Client, i64, i64, usize)> = vec![];
+    for (idx, (who, a, _)) in answers.iter().enumerate() {
+        let i = idx as i64;
+        match a {
+            WireAns::Ok(al, lim, rem, rs, rt) => {
+                let (wa, wr) = (i < b, (b - 1 - i).max(0));
+                if (*al, *lim, *rem) != (wa, b, wr) {
+                    bad.push(("C09", format!("request {} on one shared bucket (burst {b}, 1 per 3600 s) went over {who:?} and was answered {}, want ok,{},{b},{wr},_,_", i + 1, a.show(), wa as u8)));
+                } else if *al && (*rt != 0 || *rs <= 0) {
+                    bad.push(("C12", format!("request {} (allowed) over {who:?}: retry_after = {rt}, reset_after = {rs}; an allowed request has retry_after 0 and a bucket in use has reset_after > 0 - every field in its documented position", i + 1)));
+                } else if !*al {
+                    if *rt <= 0 || *rs <= 0 {
+                        bad.push(("C12", format!("request {} (denied, 1 token per 3600 s) over {who:?}: retry_after = {rt}, reset_after = {rs}; both must be positive", i + 1)));
+                    }
+                    denied.push((*who, *rs, *rt, idx));
+                }
+            }
+            other => bad.push(("C12", format!("request {} on a shared bucket (burst {b}, 1 per 3600 s) over {who:?} got no decision: {}", i + 1, other.show()))),
+        }
+    }
+    // the denied requests change nothing: asked within milliseconds of each other, every client is told the same waits
+    // (whole seconds: a later answer is lower by at most the time that passed, rounded up)
+    if let Some(f) = denied.first() {
+        for d in &denied[1..] {
+            let passed = times.get(d.3).zip(times.get(f.3)).map(|(td, tf)| td.1.duration_since(tf.0).as_millis() as i64).unwrap_or(0);
+            let tol = (passed + 999) / 1000 + 1;
+            if (d.1 - f.1).abs() > tol || (d.2 - f.2).abs() > tol {
+                let what = format!(
+                    "one exhausted bucket (burst {b}, 1 per 3600 s), denied requests milliseconds apart: {:?} is told reset_after {} / retry_after {}, {:?} is told reset_after {} / retry_after {}",
+                    f.0, f.1, f.2, d.0, d.1, d.2
+                );
+                bad.push(("C09", format!("{what} - not the answers of one limiter")));
+                bad.push(("C12", format!("{what} - the same request is answered differently depending on the client's schema / protocol")));
+                break;
+            }
+        }
+    }
+    bad
 }
 
 /// the shortest encoding of a THROTTLE command: bulk name and key, numbers as RESP integers
@@ -566,27 +841,46 @@ pub fn run(seed: u64, n: usize, out: &mut Out) {
             BuiltStore::A(s) => RateLimiterActor::spawn_adaptive(cap, s, Arc::clone(&metrics)),
         };
         out.sample(format!("server: store {store_token} queue {cap}"));
-        let ports = Ports { http: free_port(), grpc: free_port(), resp: free_port() };
-        {
+        // three DISTINCT free ports (the three probe listeners are held together); should some other process grab one of
+        // them before the transport binds it - its `start` returns at once then - everything is started again on new ports
+        let mut ports = Ports { http: 0, grpc: 0, resp: 0 };
+        for attempt in 0..6 {
+            {
+                let ls: Vec<std::net::TcpListener> = (0..3).map(|_| std::net::TcpListener::bind("127.0.0.1:0").unwrap()).collect();
+                let p: Vec<u16> = ls.iter().map(|l| l.local_addr().unwrap().port()).collect();
+                ports = Ports { http: p[0], grpc: p[1], resp: p[2] };
+            }
             let (h, m) = (handle.clone(), Arc::clone(&metrics));
             let p = ports.http;
-            tokio::spawn(async move {
+            let t1 = tokio::spawn(async move {
                 let _ = HttpTransport::new("127.0.0.1", p, m).start(h).await;
             });
             let (h, m) = (handle.clone(), Arc::clone(&metrics));
             let p = ports.grpc;
-            tokio::spawn(async move {
+            let t2 = tokio::spawn(async move {
                 let _ = GrpcTransport::new("127.0.0.1", p, m).start(h).await;
             });
             let (h, m) = (handle.clone(), Arc::clone(&metrics));
             let p = ports.resp;
-            tokio::spawn(async move {
+            let t3 = tokio::spawn(async move {
                 let _ = RedisTransport::new("127.0.0.1", p, m).unwrap().start(h).await;
             });
+            wait_port(ports.http).await;
+            wait_port(ports.grpc).await;
+            wait_port(ports.resp).await;
+            tokio::time::sleep(Duration::from_millis(30)).await;
+            if !(t1.is_finished() || t2.is_finished() || t3.is_finished()) {
+                break;
+            }
+            out.bump("server_restarts_port_taken");
+            t1.abort();
+            t2.abort();
+            t3.abort();
+            if attempt == 5 {
+                out.violation("C09", "the in-process server could not bind three loopback ports in 6 attempts".into(), vec![]);
+                return;
+            }
         }
-        wait_port(ports.http).await;
-        wait_port(ports.grpc).await;
-        wait_port(ports.resp).await;
         // wait_port's probe connection on the RESP port is closed without a command: not counted
         tokio::time::sleep(Duration::from_millis(50)).await;
         take_log();
@@ -863,6 +1157,54 @@ pub fn run(seed: u64, n: usize, out: &mut Out) {
                 out.line(format!("atrace-loose {cap} {store_token} {}", ev.join(";")), format!("ok {}", procs.len()));
             }
         }
+        // ------------------------------------------------------------------ the DOCUMENTED gRPC schema (C12, C09)
+        // one shared bucket addressed by the hand-written client with the documented field numbers, HTTP, the generated
+        // gRPC client and RESP in turn
+        for round in 0..(n / 20).max(1) {
+            let b = rng.range(4, 6);
+            let key = format!("docschema{round}");
+            let (answers, times) = documented_schema_round(&ports, &mut rng, &key, b).await;
+            let log = take_log();
+            let procs: Vec<(Vec<String>, String)> = log.iter().filter_map(|x| parse_proc(x)).collect();
+            out.bump("documented_schema_rounds");
+            let mut transcript = vec![format!("# wire: one bucket (fresh key {key}, burst {b}, 1 per 3600 s) addressed by four kinds of client in turn; GrpcDocumented = hand-written messages with the documented field numbers (response: allowed=1 limit=2 remaining=3 retry_after=4 reset_after=5)")];
+            for (i, (who, a, st)) in answers.iter().enumerate() {
+                match who.proto() {
+                    Proto::Http if *st == 200 || *st == 500 => seen.http += 1,
+                    Proto::Grpc if !matches!(a, WireAns::Broken(_)) => seen.grpc += 1,
+                    Proto::Resp if !matches!(a, WireAns::Broken(_)) => seen.resp += 1,
+                    _ => {}
+                }
+                match a {
+                    WireAns::Ok(false, ..) => seen.denied += 1,
+                    WireAns::Err(_) if who.proto() != Proto::Resp => seen.errors += 1,
+                    _ => {}
+                }
+                transcript.push(format!("# request {} over {who:?} -> {}{}", i + 1, a.show(), procs.get(i).map(|p| format!("   (limiter: {})", p.1)).unwrap_or_default()));
+            }
+            for (prop, what) in judge_documented_schema(b, &answers, &times) {
+                out.violation(prop, what, transcript.clone());
+            }
+            if procs.len() != answers.len() {
+                out.violation("C12", format!("{} sequential requests on one bucket caused {} limiter calls", answers.len(), procs.len()), transcript.clone());
+            } else {
+                let mut events = vec![];
+                for (i, ((who, a, _), (id, resp))) in answers.iter().zip(procs.iter()).enumerate() {
+                    if &a.show() != resp {
+                        out.violation("C12", format!("{who:?}: the answer decoded from the wire is {} but the limiter decided {resp} (reset_after / retry_after are the 4th / 5th number)", a.show()), transcript.clone());
+                        if who.proto() == Proto::Grpc {
+                            out.violation("C09", format!("one shared bucket: {who:?} reports {} where the limiter - and the other protocols - say {resp}", a.show()), transcript.clone());
+                        }
+                        events.clear();
+                        break;
+                    }
+                    events.push(format!("call:0:{i}:{};proc:0:{i}:{resp};ret:0:{i}:{}", id.join(":"), a.show()));
+                }
+                if !events.is_empty() {
+                    out.line(format!("atrace-loose {cap} {store_token} {}", events.join(";")), format!("ok {}", events.len()));
+                }
+            }
+        }
         check_metrics(&ports, &metrics, &mut seen, out, "after the concurrency rounds", &mut recent).await;
 
         phase(out, "concurrency");
@@ -1052,6 +1394,53 @@ pub fn run(seed: u64, n: usize, out: &mut Out) {
                     out.violation("C11", format!("hostile request got no answer at all on {proto:?}: {e}"), vec![format!("# {desc}")]);
                 }
             }
+            // the hostile numeric lattice one field at a time (`cmd::extreme_requests`: 2^31, 2^32, 2^33, 3 x 2^32, 2^53,
+            // 2^63-1, ... in each of max_burst, count_per_period, period, quantity, the other fields valid and small, plus
+            // all-extreme combinations) over RESP and HTTP, and over gRPC the values an int32 carries: every request is
+            // ANSWERED by the limiter (a decision or an error), and the answer on the wire is the limiter's
+            take_log();
+            'sweep: for proto in [Proto::Resp, Proto::Http, Proto::Grpc] {
+                for (field, b, c, p, q) in crate::cmd::extreme_requests() {
+                    let l = Logical { key: format!("x{round}_{proto:?}_{field}"), b, c, p, q: Some(q) };
+                    if proto == Proto::Grpc && !fits_i32(&l) {
+                        continue;
+                    }
+                    let (ans, desc) = send_proto(proto, &mut rng, &ports, &l, &mut seen, &mut resp_conn, false).await;
+                    let log = take_log();
+                    let procs: Vec<(Vec<String>, String)> = log.iter().filter_map(|x| parse_proc(x)).collect();
+                    out.bump("extreme_number_requests");
+                    if let WireAns::Ok(false, ..) = ans {
+                        seen.denied += 1;
+                    }
+                    let txt: String = match &ans {
+                        WireAns::Err(e) => e.chars().take(160).collect(),
+                        a => a.show(),
+                    };
+                    descr.push(format!("{proto:?} max_burst {b} count_per_period {c} period {p} quantity {q} ({field} extreme) -> {txt}"));
+                    let replay = vec![format!("# wire: {desc}"), format!("# -> {txt}")];
+                    let gone = matches!(&ans, WireAns::Err(e) if e.contains("has shut down") || e.contains("dropped response channel"));
+                    if gone || matches!(ans, WireAns::Broken(_)) {
+                        out.violation(
+                            "C11",
+                            format!("a well-formed request with positive numbers (max_burst {b}, count_per_period {c}, period {p}, quantity {q}: {field} extreme) over {proto:?} was answered {txt:?} - {}", if gone { "the limiter no longer serves" } else { "no answer at all" }),
+                            replay,
+                        );
+                        break 'sweep;
+                    }
+                    if procs.len() != 1 {
+                        out.violation("C12", format!("one {proto:?} request with an extreme {field} caused {} limiter calls", procs.len()), replay);
+                    } else if procs[0].1 != ans.show() {
+                        // (gRPC carries int32: a decision with a number beyond that - a wait of 2^31 s or more - cannot
+                        // arrive intact; observed on the unmodified server: the low 32 bits arrive.  Not judged here.)
+                        let fits = procs[0].1.split(',').skip(1).all(|x| x.parse::<i32>().is_ok());
+                        if proto != Proto::Grpc || fits {
+                            out.violation("C12", format!("{proto:?}, extreme {field}: wire answer {} but the limiter decided {}", ans.show(), procs[0].1), replay);
+                        } else {
+                            out.bump("grpc_answers_beyond_int32_not_judged");
+                        }
+                    }
+                }
+            }
             // abrupt closes in the middle of a request
             for (port, bytes) in [
                 (ports.http, &b"POST /throttle HTTP/1.1\r\nHost: x\r\nContent-Length: 100\r\n\r\n{\"key\":"[..]),
@@ -1086,6 +1475,89 @@ pub fn run(seed: u64, n: usize, out: &mut Out) {
             }
             tokio::time::sleep(Duration::from_millis(20)).await;
             take_log();
+            // deeply nested RESP frames, each on a connection of its own: up to 128 levels a value like any other (answered
+            // with the error for "not a command", the connection goes on serving), deeper ones rejected (C13)
+            for depth in NEST_DEPTHS {
+                let frame = nested_frame(depth);
+                let (reply, ping) = match RespConn::open(ports.resp).await {
+                    Err(e) => (Err(e), None),
+                    Ok(mut c) => {
+                        let r = c.call(&frame).await;
+                        let ping = if r.is_ok() { Some(c.call(b"*1\r\n$4\r\nPING\r\n").await) } else { None };
+                        (r, ping)
+                    }
+                };
+                if matches!(ping, Some(Ok(_))) {
+                    seen.resp += 1;
+                }
+                out.bump("nested_frames");
+                descr.push(format!("RESP frame nested {depth} deep -> {}", match &reply { Ok(v) => crate::val::show(v), Err(e) => format!("no reply ({e})") }));
+                if let Some(what) = judge_nested(depth, &reply, &ping) {
+                    out.violation("C13", what, vec![format!("# wire: new RESP connection, one write of {} x `*1` + `:1`, then PING", depth), crate::resp::rdec_line(&frame)]);
+                }
+            }
+            // k complete THROTTLE commands - some of them denied - and then a frame the decoder rejects, in ONE write: the
+            // commands in front of the bad frame are executed and counted, so each of them is answered before the
+            // connection is closed (C10), and the counters agree with what the client was told (C15)
+            for (fi, (what, bad)) in rejected_frames().into_iter().enumerate() {
+                if crate::resp::dec(&bad) != Dec::Error {
+                    out.bump("rejected_frames_the_decoder_does_not_reject");
+                    continue;
+                }
+                let k = rng.range(3, 6);
+                let b = rng.range(1, k - 1);
+                let l = Logical { key: format!("pipe{round}_{fi}"), b, c: 1, p: 3600, q: Some(1) };
+                let mut bytes = vec![];
+                for _ in 0..k {
+                    bytes.extend(resp_command(&mut rng, &l));
+                }
+                bytes.extend_from_slice(&bad);
+                let before = counters(&metrics);
+                let r = resp_write_read_to_end(ports.resp, &bytes, Duration::from_secs(3)).await;
+                tokio::time::sleep(Duration::from_millis(30)).await;
+                let after = counters(&metrics);
+                let log = take_log();
+                let executed = log.iter().filter_map(|x| parse_proc(x)).count();
+                out.bump("pipelines_before_a_rejected_frame");
+                let (replies, closed, rest) = match r {
+                    Ok(x) => x,
+                    Err(e) => {
+                        out.violation("C11", format!("cannot open a RESP connection: {e}"), vec![]);
+                        continue;
+                    }
+                };
+                let answers: Vec<WireAns> = replies.into_iter().map(|v| resp_answer(Ok(v))).collect();
+                let got_denied = answers.iter().filter(|a| matches!(a, WireAns::Ok(false, ..))).count() as u64;
+                let (d_redis, d_allowed, d_denied) = (after.redis - before.redis, after.allowed - before.allowed, after.denied - before.denied);
+                let replay = vec![
+                    format!("# wire: new RESP connection, ONE write: {k} x THROTTLE {} {b} 1 3600 1, then {what} ({})", l.key, hx(&bad)),
+                    format!("rconn {}", hx(&bytes)),
+                    format!("# replies received: {} [{}]; connection closed by the server: {closed}; {rest} more bytes that are no complete reply", answers.len(), answers.iter().map(|a| a.show()).collect::<Vec<_>>().join(" ")),
+                    format!("# limiter calls: {executed}; counters moved by: redis +{d_redis} allowed +{d_allowed} denied +{d_denied}"),
+                ];
+                descr.push(format!("RESP pipeline of {k} THROTTLEs + {what} -> {} replies", answers.len()));
+                if answers.len() as i64 != k {
+                    out.violation("C10", format!("{k} complete THROTTLE commands followed by {what} in one write: {} replies arrived before the server closed the connection (the limiter executed {executed} of the commands)", answers.len()), replay.clone());
+                }
+                if d_redis != answers.len() as u64 || d_denied != got_denied {
+                    out.violation(
+                        "C15",
+                        format!("{k} THROTTLE commands followed by {what} in one write: the counters moved by redis +{d_redis} (allowed +{d_allowed}, denied +{d_denied}) but the client received {} replies, {got_denied} of them denials - what was counted is not what clients were told", answers.len()),
+                        replay.clone(),
+                    );
+                }
+                for (i, a) in answers.iter().enumerate() {
+                    let i = i as i64;
+                    let good = if i < b { matches!(a, WireAns::Ok(true, lim, rem, _, 0) if *lim == b && *rem == b - 1 - i) } else { matches!(a, WireAns::Ok(false, lim, 0, _, _) if *lim == b) };
+                    if !good {
+                        out.violation("C12", format!("reply {} of a pipeline of {k} unit requests on a fresh key, burst {b}: {}, want ok,{},{b},{},_,_", i + 1, a.show(), (i < b) as u8, (b - 1 - i).max(0)), replay.clone());
+                        break;
+                    }
+                }
+                // (reported once: the next quiescent check starts from what the server counted)
+                seen.resp += d_redis;
+                seen.denied += d_denied;
+            }
             // hostile KEYS on every protocol, each in a pair burst 1, 1 per 3600 s: the first is allowed, the
             // second DENIED, which is what hands the key to the denied-key tracking of the transport
             for (pi, proto) in [Proto::Http, Proto::Grpc, Proto::Resp].into_iter().enumerate() {
@@ -1318,6 +1790,41 @@ pub fn run(seed: u64, n: usize, out: &mut Out) {
         check_metrics(&ports, &metrics, &mut seen, out, "after the poison rounds", &mut recent).await;
 
         phase(out, "poison");
+        // ------------------------------------------------------------------ stalled clients (C11)
+        // 600 connections per port that sent the beginning of a request and stay open; everybody else is served as before
+        {
+            let per_port = 600usize;
+            let st = crate::net::open_stalled(ports.http, ports.grpc, ports.resp, per_port).await;
+            tokio::time::sleep(Duration::from_millis(50)).await;
+            take_log();
+            out.add("stalled_connections", st.open.iter().sum::<usize>() as u64);
+            let replay = vec![format!(
+                "# wire: {} HTTP connections sent a complete head with Content-Length and half of the body, {} gRPC connections an HTTP/2 preface, SETTINGS and part of a HEADERS frame, {} RESP connections an array header and half of a bulk string; all of them stay open while the probes run",
+                st.open[0], st.open[1], st.open[2]
+            )];
+            for proto in [Proto::Http, Proto::Grpc, Proto::Resp] {
+                let l = Logical { key: format!("stallprobe_{proto:?}"), b: 2, c: 1, p: 60, q: Some(1) };
+                let mut fresh: Option<RespConn> = None;
+                let (ans, _) = send_proto(proto, &mut rng, &ports, &l, &mut seen, &mut fresh, true).await;
+                take_log();
+                out.bump("probes");
+                if !matches!(ans, WireAns::Ok(true, 2, 1, _, 0)) {
+                    out.violation("C11", format!("with {} + {} + {} stalled connections open (HTTP / gRPC / RESP), a request on a new {proto:?} connection is answered {}, want ok,1,2,1,_,0", st.open[0], st.open[1], st.open[2], ans.show()), replay.clone());
+                }
+            }
+            for path in ["/health", "/metrics"] {
+                let r = http_raw(ports.http, format!("GET {path} HTTP/1.1\r\nHost: x\r\nConnection: close\r\n\r\n").as_bytes()).await;
+                if !matches!(r, Ok((200, _))) {
+                    out.violation("C11", format!("with {} stalled HTTP connections open GET {path} on a new connection gives {:?}", st.open[0], r.map(|x| x.0)), replay.clone());
+                }
+            }
+            out.add("stalled_connections_closed_by_the_server", st.closed_by_server() as u64);
+            st.close();
+            tokio::time::sleep(Duration::from_millis(100)).await;
+            take_log();
+            check_metrics(&ports, &metrics, &mut seen, out, "after the stalled clients", &mut recent).await;
+        }
+        phase(out, "stalled");
         // ------------------------------------------------------------------ abandoned requests (C15)
         // complete requests whose sender closes (FIN) or aborts (RST) the connection at once without reading the answer,
         // while other connections keep the limiter busy.  Whether such a request is counted depends on timing; the
@@ -1448,6 +1955,7 @@ pub fn run(seed: u64, n: usize, out: &mut Out) {
             check_metrics(&ports, &metrics, &mut seen, out, "after the abandoned requests", &mut recent).await;
         }
         phase(out, "abandoned");
+        out.add("grpc_calls_with_the_documented_schema", GRPC_DOC_CALLS.load(std::sync::atomic::Ordering::Relaxed));
     });
     rt.shutdown_background();
 }
